@@ -45,6 +45,8 @@ def main():
         sys.exit(0)
 
     t0 = time.time()
+    # stall watchdog of mc.parallel: no shard of a quick tier needs more than a few seconds
+    os.environ.setdefault("VERIF_STALL", "300" if args.tier == "quick" else "1500")
     report = mod.run(args.tier)
     problems = mod.SANITY(report, args.tier) if getattr(mod, "SANITY", None) else []
     code, n_fresh, known_hit = findings.verdict(pid, report, args.tier)
